@@ -403,6 +403,15 @@ def close(a, b, rel=1e-9, abs_=1e-12):
     return a == b or abs(a - b) <= max(rel * max(abs(a), abs(b)), abs_)
 
 
+class TooLarge(ContractError):
+    """the clause cannot be evaluated concretely on this input within the work limit (not a verdict)"""
+
+
+QUANT_RANGE_MAX = 200000
+WORK_MAX = 3000000
+WORK = [0]          # quantifier steps of the current evaluation (reset by vf.judge before each judgement)
+
+
 class ConcEnv:
     """vars: name -> int | float | Fraction | CPtr ; mem: region -> list ; ghost: name -> python callable"""
 
@@ -520,7 +529,14 @@ class ConcEnv:
         if f in ('forall', 'exists'):
             var = A[0].id; rng = A[1]
             lo, hi = self.range_of(var, rng)
+            # concrete evaluation is for small witnesses: a solver model with a huge dimension (grids of 2**30 rows are admissible) must not
+            # turn into an endless enumeration; the caller treats the error as "cannot be evaluated on this input"
+            if hi - lo > QUANT_RANGE_MAX:
+                raise TooLarge('quantifier range of %d values is too large for concrete evaluation' % (hi - lo))
             for k in range(lo, hi):
+                WORK[0] += 1
+                if WORK[0] > WORK_MAX:
+                    raise TooLarge('concrete evaluation needs more than %d quantifier steps' % WORK_MAX)
                 e2 = self.sub(**{var: k})
                 if not e2.e(rng):
                     continue
